@@ -170,6 +170,20 @@ class _SubstNames(ast.NodeTransformer):
 class _FoldAttrCalls(ast.NodeTransformer):
     """getattr(x, "a") -> x.a ; setattr(x, "a", v) -> x.a = v (statement level) for constant attribute names."""
 
+    def visit_JoinedStr(self, node):
+        # f"_{'field_units'}" (what is left of f"_{name}" once the loop over the names is unrolled) -> "_field_units"
+        self.generic_visit(node)
+        parts = []
+        for v in node.values:
+            if isinstance(v, ast.Constant) and isinstance(v.value, str):
+                parts.append(v.value)
+            elif isinstance(v, ast.FormattedValue) and v.conversion == -1 and v.format_spec is None and isinstance(v.value, ast.Constant) \
+                    and isinstance(v.value.value, str):
+                parts.append(v.value.value)
+            else:
+                return node
+        return ast.copy_location(ast.Constant(value="".join(parts)), node)
+
     def visit_Call(self, node):
         self.generic_visit(node)
         if isinstance(node.func, ast.Name) and node.func.id == "getattr" and len(node.args) == 2 and not node.keywords \
